@@ -1,7 +1,7 @@
 """Which functions (under contract) carry which property.  Unit -> list of function names whose
 every obligation must be discharged for the property to hold."""
 
-SOLVER_CORE = ["solve_expression", "find", "match_all", "match_of", "lemma_match_unfold", "lemma_ids_wf",
+SOLVER_CORE = ["solve_expression", "find", "match_all", "match_of", "lemma_tables_as_stated", "lemma_of3_single", "lemma_match_unfold", "lemma_ids_wf",
                "lemma_and3_skip", "lemma_and3_first", "lemma_and3_all_true", "lemma_and3_true_iff",
                "lemma_and2", "lemma_or2", "lemma_count_true_step", "lemma_count_true_mono", "lemma_count_true_bound"]
 
@@ -78,6 +78,16 @@ PROPS = {
         "units": {"solver": ["solve_expression", "match_all", "match_of", "slow_aho", "lemma_of3_single", "lemma_bit_or", "lemma_bit_val", "lemma_bit_zero", "lemma_seen_step", "lemma_seen_all", "lemma_count_true_step", "lemma_count_true_mono", "lemma_match_unfold"]},
         "explanation": "all(X)/of(X, n) over identifier groups count the group's entries (solve_expression Match arms: and3 / of3 over sems); over a merged search they count distinct members: slow_aho's 64-bit bitmap is proved to equal ac_count (each member once, however often it occurs), match_all/match_of are proved equal to sem_all_leaf/sem_of_leaf for string, array and cast scalar values; a single predicate counts as a list of one member",
         "assumptions": ["slow_aho's HashSet branch (>= 64 needles) is a hole", "the parser-side construction of the wrappers (parse_mapping) is not under contract", "Matrix forms of all()/of() are holes"],
+    },
+    "C16": {
+        "units": {"solver": ["solve_expression", "match_all", "match_of", "solve", "Cache::find", "Passthrough::find"]},
+        "explanation": "Document::find carries the precondition dm_permits(self.model(), key); solve/solve_expression/match_all/match_of require permitted(e, ids, doc) = every key in asks(e, ids) (the field names written in the rule; for a nested block only the block's own key) is permitted, and every find call site in them is a discharged obligation: the key passed is one the rule writes. The private Cache document only permits one-character column keys below its width.",
+        "assumptions": ["Matrix arms are holes, so 'synthetic keys never reach the user's document' is assumed there", "invariance under unaddressed fields needs the frame lemma over sem3 (not yet proved)"],
+    },
+    "C17": {
+        "units": {"solver": ["solve_expression", "lemma_or3_reorder", "lemma_and3_truth_reorder", "lemma_reorder_same_values", "lemma_binary_commute", "lemma_of0_reorder", "lemma_group_reorder", "lemma_and3_true_iff", "lemma_and2", "lemma_or2", "search"]},
+        "explanation": "lemmas over the truth tables: or3 is invariant under any reordering of its operands, and3 / all are TRUE for the same operand sets under reordering, binary forms commute in truth; lifted to BooleanGroup expressions (lemma_group_reorder); with solve_expression == sem3 this is the property for or/and operands, mapping entries and sequences of mappings. The merged-search semantics (search_rel for AhoCorasick) is an existential over reported occurrences, hence order-free.",
+        "assumptions": ["the parser's re-batching of list members keeps needles and contexts aligned (parse_mapping not under contract)", "of(n>=1) count invariance under reordering is not yet proved as a lemma"],
     },
     "C06": {
         "units": {"solver": SOLVER_CORE + ["solve"]},
